@@ -324,6 +324,76 @@ func (l *limitWriter) Write(p []byte) (int, error) {
 type kase struct {
 	Faults  []string `json:"faults"`
 	Command command  `json:"command"`
+	Special string   `json:"special,omitempty"` // a file that needs decoder options (unit "flags")
+}
+
+// files that the decoder accepts only with options, and the diff command's flags for those options
+var specialFiles = map[string]string{
+	"over-indented": "0 HEAD\n0 @I1@ INDI\n1 NAME Ann /Ash/\n3 GIVN Ann\n1 BIRT\n2 DATE 1 Jan 1850\n1 DEAT Y\n0 TRLR\n",
+	"multi-line":    "0 HEAD\n0 @I1@ INDI\n1 NAME Ann /Ash/\n1 NOTE first line\nsecond line without a level\n1 DEAT Y\n0 TRLR\n",
+	"both":          "0 HEAD\n0 @I1@ INDI\n1 NAME Ann /Ash/\n4 GIVN Ann\n1 NOTE first line\nsecond line without a level\n1 DEAT Y\n0 TRLR\n",
+	"plain":         "0 HEAD\n0 @I1@ INDI\n1 NAME Ann /Ash/\n1 DEAT Y\n0 TRLR\n",
+}
+var specialNames = []string{"over-indented", "multi-line", "both", "plain"}
+
+func acceptedWith(text string, ml, ii bool) (ok bool) {
+	defer func() {
+		if recover() != nil {
+			ok = false
+		}
+	}()
+	d := gedcom.NewDecoder(strings.NewReader(text))
+	d.AllowMultiLine, d.AllowInvalidIndents = ml, ii
+	_, err := d.Decode()
+	return err == nil
+}
+
+// runFlags: every special file x every combination of the two decoder flags x both sides of diff;
+// whenever the flags given make the decoder accept both files, the command must succeed.
+func runFlags(r *vlib.Rec, scratch, base string) {
+	for _, name := range specialNames {
+		text := specialFiles[name]
+		file := filepath.Join(scratch, "special.ged")
+		os.WriteFile(file, []byte(text), 0o644)
+		for _, ml := range []bool{false, true} {
+			for _, ii := range []bool{false, true} {
+				for _, side := range []string{"left", "right", "both"} {
+					args := []string{"diff", "-output", "{OUT}/diff.html"}
+					switch side {
+					case "left":
+						args = append(args, "-left-gedcom", "{FILE}", "-right-gedcom", "{BASE}")
+					case "right":
+						args = append(args, "-left-gedcom", "{BASE}", "-right-gedcom", "{FILE}")
+					default:
+						args = append(args, "-left-gedcom", "{FILE}", "-right-gedcom", "{FILE}")
+					}
+					if ml {
+						args = append(args, "-allow-multi-line")
+					}
+					if ii {
+						args = append(args, "-allow-invalid-indents")
+					}
+					c := command{"diff-decoder-flags", args}
+					r.Eval()
+					r.Count("flags")
+					o := runCommand(c, file, base, scratch)
+					r.Count("outcome:" + o.class)
+					if !acceptedWith(text, ml, ii) {
+						r.Count("flags:not-accepted-with-these-flags")
+						continue // not a file the decoder accepts under these options
+					}
+					r.Nontrivial(name + "|" + strings.Join(args, " "))
+					sig := o.sig
+					if sig == "" && o.class != "ok" {
+						sig = "accepted-file-refused:diff-decoder-flags"
+					}
+					if sig != "" {
+						r.Fail(sig, fmt.Sprintf("gedcom %s on the file %q, which the decoder accepts with AllowMultiLine=%v AllowInvalidIndents=%v: %s %s", strings.Join(args, " "), name, ml, ii, o.class, o.detail), kase{Special: name, Command: c})
+					}
+				}
+			}
+		}
+	}
 }
 
 func faultNames(set []int) []string {
@@ -377,7 +447,7 @@ func k(tier string) int {
 }
 
 func run(tier, unit string, r *vlib.Rec) {
-	_, lo, hi := vlib.ParseChunk(unit)
+	uname, lo, hi := vlib.ParseChunk(unit)
 	scratch, err := os.MkdirTemp("/dev/shm", "c14-")
 	if err != nil {
 		scratch, _ = os.MkdirTemp("", "c14-")
@@ -385,6 +455,10 @@ func run(tier, unit string, r *vlib.Rec) {
 	defer os.RemoveAll(scratch)
 	base := filepath.Join(scratch, "base.ged")
 	os.WriteFile(base, []byte(document(nil)), 0o644)
+	if uname == "flags" {
+		runFlags(r, scratch, base)
+		return
+	}
 	sets := subsets(k(tier))
 	cmds := commands(tier)
 	for i := lo; i < hi; i++ {
@@ -441,7 +515,7 @@ func run(tier, unit string, r *vlib.Rec) {
 }
 
 func plan(tier string) []string {
-	return vlib.Chunks("files", int64(len(subsets(k(tier)))), 4)
+	return append(vlib.Chunks("files", int64(len(subsets(k(tier)))), 4), "flags:0:1")
 }
 
 func replay(cs json.RawMessage) (string, string) {
@@ -454,6 +528,15 @@ func replay(cs json.RawMessage) (string, string) {
 	file := filepath.Join(scratch, "in.ged")
 	set := setOf(c.Faults)
 	os.WriteFile(file, []byte(document(set)), 0o644)
+	if c.Special != "" {
+		os.WriteFile(file, []byte(specialFiles[c.Special]), 0o644)
+		o := runCommand(c.Command, file, base, scratch)
+		sig := o.sig
+		if sig == "" && o.class != "ok" {
+			sig = "accepted-file-refused:diff-decoder-flags"
+		}
+		return sig, fmt.Sprintf("file %q; gedcom %s -> %s %s", c.Special, strings.Join(c.Command.Args, " "), o.class, o.detail)
+	}
 	o := runCommand(c.Command, file, base, scratch)
 	sig := o.sig
 	if o.class == "crash" {
